@@ -251,3 +251,66 @@ Proof.
   remember ((m / 16777216) mod 64) as t5. remember (m / 1073741824) as t6.
   clear Heqt1 Heqt2 Heqt3 Heqt5 Heqt6. lia.
 Qed.
+
+(** * common header (12 bytes; version 4, traffic class 8, flow id 20 bits, two 4-bit address nibbles) *)
+Lemma chunk_ext (v v2 : bytes) o k :
+  bytes_ok v = true -> bytes_ok v2 = true -> o + k <= blen v -> o + k <= blen v2 ->
+  sub v2 0 o = sub v 0 o -> be v2 o k = be v o k -> sub v2 0 (o + k) = sub v 0 (o + k).
+Proof.
+  intros O1 O2 L1 L2 Hp Hb.
+  assert (E : sl v2 o k = sl v o k) by (rewrite <- (be_bytes_sl v o k O1 L1), <- (be_bytes_sl v2 o k O2 L2), Hb; reflexivity).
+  unfold sub in *. rewrite N.sub_0_r in *. cbn [N.to_nat skipn] in *.
+  rewrite N2Nat.inj_add, !firstn_sum_split. rewrite Hp. f_equal. exact E.
+Qed.
+
+Lemma encode_decode_common (v buf : bytes) h units psize :
+  bytes_ok v = true -> blen v = 12 -> bytes_ok buf = true -> blen buf = 12 ->
+  h_tc h < 256 -> h_flow h < 2 ^ 20 -> h_nh h < 256 -> units < 256 -> psize < 65536 ->
+  path_type_num (h_path h) < 256 -> host_nibble (h_dst_host h) < 16 -> host_nibble (h_src_host h) < 16 ->
+  hv_version v = Ok 0 -> rd v CommonHeader_RSV_RNG 16 = Ok 0 ->
+  hv_traffic_class v = Ok (h_tc h) -> hv_flow_id v = Ok (h_flow h) -> hv_next_header v = Ok (h_nh h) ->
+  hv_header_len v = Ok (units * 4) -> hv_payload_len v = Ok psize -> hv_path_type v = Ok (path_type_num (h_path h)) ->
+  hv_dst_addr_type v = Ok (host_nibble (h_dst_host h)) -> hv_src_addr_type v = Ok (host_nibble (h_src_host h)) ->
+  encode_common h units psize buf = v.
+Proof.
+  intros Hok Lv Hob Lb Htc Hfl Hnh Hun Hps Hpt Hdn Hsn Rv Rr Rtc Rfl Rnh Rhl Rpl Rpt Rd Rs.
+  destruct (common_header_roundtrip_lemma h units psize buf Hob ltac:(rewrite Lb; unfold CommonHeader_SIZE_BYTES; lia)
+              Htc Hfl Hnh Hun Hps Hpt Hdn Hsn) as (O2 & L2 & Qv & Qtc & Qfl & Qnh & Qhl & Qpl & Qpt & Qd & Qs & Qr & _).
+  set (v2 := encode_common h units psize buf) in *. rewrite Lb in L2.
+  pose proof (spec_common_agrees v Hok ltac:(rewrite Lv; unfold CommonHeader_SIZE_BYTES; lia)) as A. cbv zeta in A.
+  destruct A as (A1 & A2 & A3 & A4 & A5 & A6 & A7 & A8 & A9 & A10).
+  pose proof (spec_common_agrees v2 O2 ltac:(rewrite L2; unfold CommonHeader_SIZE_BYTES; lia)) as B. cbv zeta in B.
+  destruct B as (B1 & B2 & B3 & B4 & B5 & B6 & B7 & B8 & B9 & B10).
+  rewrite Rv in A1. rewrite Rtc in A2. rewrite Rfl in A3. rewrite Rnh in A4. rewrite Rhl in A5. rewrite Rpl in A6.
+  rewrite Rpt in A7. rewrite Rd in A8. rewrite Rs in A9. rewrite Rr in A10.
+  rewrite Qv in B1. rewrite Qtc in B2. rewrite Qfl in B3. rewrite Qnh in B4. rewrite Qhl in B5. rewrite Qpl in B6.
+  rewrite Qpt in B7. rewrite Qd in B8. rewrite Qs in B9. rewrite Qr in B10.
+  inversion A1 as [a1]. inversion A2 as [a2]. inversion A3 as [a3]. inversion A4 as [a4]. inversion A5 as [a5]. inversion A6 as [a6].
+  inversion A7 as [a7]. inversion A8 as [a8]. inversion A9 as [a9]. inversion A10 as [a10].
+  inversion B1 as [b1]. inversion B2 as [b2]. inversion B3 as [b3]. inversion B4 as [b4]. inversion B5 as [b5]. inversion B6 as [b6].
+  inversion B7 as [b7]. inversion B8 as [b8]. inversion B9 as [b9]. inversion B10 as [b10].
+  assert (X0 : be v 0 1 < 256) by (apply (be_lt v 0 1 Hok); lia). assert (Y0 : be v2 0 1 < 256) by (apply (be_lt v2 0 1 O2); lia).
+  assert (X1 : be v 1 1 < 256) by (apply (be_lt v 1 1 Hok); lia). assert (Y1 : be v2 1 1 < 256) by (apply (be_lt v2 1 1 O2); lia).
+  assert (X2 : be v 2 2 < 65536) by (apply (be_lt v 2 2 Hok); lia). assert (Y2 : be v2 2 2 < 65536) by (apply (be_lt v2 2 2 O2); lia).
+  assert (X9 : be v 9 1 < 256) by (apply (be_lt v 9 1 Hok); lia). assert (Y9 : be v2 9 1 < 256) by (apply (be_lt v2 9 1 O2); lia).
+  assert (E0 : be v2 0 1 = be v 0 1) by (clear - a1 a2 b1 b2 X0 Y0 X1 Y1; lia).
+  assert (E1 : be v2 1 1 = be v 1 1) by (clear - a2 a3 b2 b3 X0 Y0 X1 Y1 X2 Y2 E0; lia).
+  assert (E2 : be v2 2 2 = be v 2 2) by (clear - a3 b3 E1 X2 Y2; lia).
+  assert (E4 : be v2 4 1 = be v 4 1) by congruence.
+  assert (E5 : be v2 5 1 = be v 5 1) by (clear - a5 b5; lia).
+  assert (E6 : be v2 6 2 = be v 6 2) by congruence.
+  assert (E8 : be v2 8 1 = be v 8 1) by congruence.
+  assert (E9 : be v2 9 1 = be v 9 1) by (clear - a8 a9 b8 b9 X9 Y9; lia).
+  assert (E10 : be v2 10 2 = be v 10 2) by congruence.
+  assert (S0 : sub v2 0 0 = sub v 0 0) by reflexivity.
+  pose proof (chunk_ext v v2 0 1 Hok O2 ltac:(lia) ltac:(lia) S0 E0) as S1. change (0 + 1) with 1 in S1.
+  pose proof (chunk_ext v v2 1 1 Hok O2 ltac:(lia) ltac:(lia) S1 E1) as S2. change (1 + 1) with 2 in S2.
+  pose proof (chunk_ext v v2 2 2 Hok O2 ltac:(lia) ltac:(lia) S2 E2) as S4. change (2 + 2) with 4 in S4.
+  pose proof (chunk_ext v v2 4 1 Hok O2 ltac:(lia) ltac:(lia) S4 E4) as S5. change (4 + 1) with 5 in S5.
+  pose proof (chunk_ext v v2 5 1 Hok O2 ltac:(lia) ltac:(lia) S5 E5) as S6. change (5 + 1) with 6 in S6.
+  pose proof (chunk_ext v v2 6 2 Hok O2 ltac:(lia) ltac:(lia) S6 E6) as S8. change (6 + 2) with 8 in S8.
+  pose proof (chunk_ext v v2 8 1 Hok O2 ltac:(lia) ltac:(lia) S8 E8) as S9. change (8 + 1) with 9 in S9.
+  pose proof (chunk_ext v v2 9 1 Hok O2 ltac:(lia) ltac:(lia) S9 E9) as S10. change (9 + 1) with 10 in S10.
+  pose proof (chunk_ext v v2 10 2 Hok O2 ltac:(lia) ltac:(lia) S10 E10) as S12. change (10 + 2) with 12 in S12.
+  apply sub_whole_eq; [lia|]. rewrite Lv. exact S12.
+Qed.
